@@ -76,3 +76,5 @@ def run_deductive(rep):
     lemmas(rep)
     if rep.tier == "thorough":
         lean_adjoint(rep)
+    from ..static import frames
+    frames.report(rep, table=frames.MOMENTS, conditions=("F5",))      # gamma / signed_weights / bound / project_lambda are pure queries of the loaded data (no caches)
